@@ -39,6 +39,13 @@
 //!                                      effect runs exactly once per change and sees no mixture (see `imm_ok`)
 //!   drop <memo>                        dispose (arena) / drop (arc) a memo that no node reads: it stays behind as a dead
 //!                                      entry in its sources' subscriber lists; afterwards it cannot be read (`bad-op`)
+//!   scope | endscope                   open / close a child owner: `sig` / `memo` / `memoc` / `memoh` defined in between are
+//!                                      created under it, always in the reference-counted flavour (ArcRwSignal / arc_signal,
+//!                                      ArcMemo with every constructor, ArcSignal / ArcMappedSignal wrappers); other defs are
+//!                                      `bad-op` there; scopes do not nest
+//!   cleanupscope <k>                   `Owner::cleanup` on the k-th scope's owner: its Arc nodes must keep working
+//!   disposew <id>                      wrap signal / memo <id> in a fresh `Signal::from(..)` and `dispose()` that wrapper:
+//!                                      nothing changes for the node and its other readers
 //!   oncl                               every effect run registers one `on_cleanup` (C02 prints ` cl=<node>:<calls>,…`)
 //!   set <id> <v> | sset <slice> <v> | read <id> | poll <i> | idle
 //! <expr> prefix tokens: L<n> | R<id> (tracked read) | U<id> (read under untrack) |
@@ -922,6 +929,9 @@ pub struct Case {
     wrap: u8,
     pub effs: Vec<EffSlot>,
     pending_handler: Option<usize>,
+    /// child owners opened by `scope`, and the one defs currently go to
+    scopes: Vec<(Owner, bool)>,
+    cur_scope: Option<usize>,
 }
 
 impl Case {
@@ -932,7 +942,7 @@ impl Case {
         owner.set();
         let sh: Sh = Arc::new(Mutex::new(Shared::default()));
         CUR.with(|c| *c.borrow_mut() = Some(sh.clone()));
-        Case { sh, owner, arena: false, wrap: 0, effs: vec![], pending_handler: None }
+        Case { sh, owner, arena: false, wrap: 0, effs: vec![], pending_handler: None, scopes: vec![], cur_scope: None }
     }
 
     pub fn set_mode(&mut self, arena: bool) {
@@ -980,6 +990,49 @@ impl Case {
         if let Handle::Memo(m) = h {
             m.dispose()
         }
+        true
+    }
+
+    pub fn in_scope(&self) -> bool {
+        self.cur_scope.is_some()
+    }
+
+    pub fn scope_op(&mut self, op: &str, k: Option<usize>) -> bool {
+        match (op, k) {
+            ("scope", None) if self.cur_scope.is_none() => {
+                self.scopes.push((self.owner.child(), false));
+                self.cur_scope = Some(self.scopes.len() - 1);
+            }
+            ("endscope", None) if self.cur_scope.is_some() => self.cur_scope = None,
+            ("cleanupscope", Some(k)) if self.cur_scope != Some(k) && self.scopes.get(k).map(|s| !s.1).unwrap_or(false) => {
+                self.scopes[k].1 = true;
+                self.scopes[k].0.cleanup();
+            }
+            _ => return false,
+        }
+        true
+    }
+
+    /// `disposew <id>`: a fresh arena wrapper around the node, disposed at once
+    pub fn dispose_wrapper(&mut self, id: usize) -> bool {
+        use reactive_graph::traits::Dispose;
+        let h = {
+            let g = self.sh.lock().unwrap();
+            if g.dropped.contains(&id) || g.is_field(id) {
+                return false;
+            }
+            g.handles.get(id).cloned()
+        };
+        let w: Signal<i64> = match h {
+            Some(Handle::Sig(x)) => Signal::from(x),
+            Some(Handle::Split(x, _)) => Signal::from(x),
+            Some(Handle::ArcSig(x)) => Signal::from(x),
+            Some(Handle::ArcSplit(x, _)) => Signal::from(x),
+            Some(Handle::Memo(x)) => Signal::from(x),
+            Some(Handle::ArcMemo(x)) => Signal::from(x),
+            _ => return false,
+        };
+        w.dispose();
         true
     }
 
@@ -1127,10 +1180,18 @@ impl Case {
     fn define_full(&mut self, d: Def, kind: EffKind, coarse: Option<i64>) {
         let id = self.sh.lock().unwrap().defs.len();
         let sh = self.sh.clone();
-        let arena = self.arena;
+        // inside a scope every node is reference counted (it has to outlive the scope's cleanup), and the wrapper
+        // families that allocate arena items (MaybeSignal / MaybeProp) are not used
+        let scoped = self.cur_scope.is_some();
+        let arena = self.arena && !scoped;
+        let wrap = if scoped && self.wrap >= 4 { 0 } else { self.wrap };
+        let def_owner = match self.cur_scope {
+            Some(k) => self.scopes[k].0.clone(),
+            None => self.owner.clone(),
+        };
         let acc = self.sh.lock().unwrap().acc;
-        let h = self.owner.with(|| match &d {
-            Def::Sig(v) => match (arena, sig_split(acc, id) && self.wrap != 3) {
+        let h = def_owner.with(|| match &d {
+            Def::Sig(v) => match (arena, sig_split(acc, id) && wrap != 3) {
                 (true, false) => Handle::Sig(RwSignal::new(*v)),
                 (false, false) => Handle::ArcSig(ArcRwSignal::new(*v)),
                 (true, true) => {
@@ -1172,7 +1233,7 @@ impl Case {
             }
             Def::Eff(_) | Def::Key(..) => Handle::Eff,
         });
-        let reader = self.owner.with(|| match (self.wrap, &h) {
+        let reader = def_owner.with(|| match (wrap, &h) {
             (1, Handle::Sig(x)) => Reader::Wrapped(Signal::from(*x)),
             (1, Handle::Split(x, _)) => Reader::Wrapped(Signal::from(*x)),
             (1, Handle::Memo(x)) => Reader::Wrapped(Signal::from(*x)),
